@@ -234,13 +234,19 @@ Proof.
   rewrite B, mlen_app. rewrite <- (app_nil_r (wire_abs n)) at 1. apply NameIn_wire; auto. lia.
 Qed.
 
-(* pos | 0xC000 for a 14 bit pos: all 16384 values enumerated *)
+(* pos | 0xC000 for a 14 bit pos: the operands have no bit in common *)
+Lemma land_ptr_tag q : q < 16384 -> N.land q 49152 = 0.
+Proof.
+  intros Hq. apply N.bits_inj. intros n. rewrite N.land_spec, N.bits_0.
+  destruct (N.lt_ge_cases n 14) as [L|L].
+  - change 49152 with (3 * 2 ^ 14). rewrite (N.mul_pow2_bits_low 3 14 n L). apply andb_false_r.
+  - rewrite <- (N.mod_small q (2 ^ 14)) by exact Hq.
+    rewrite N.mod_pow2_bits_high by exact L. reflexivity.
+Qed.
 Lemma lor_ptr_tag q : q < 16384 -> N.lor q 49152 = q + 49152.
 Proof.
-  intros Hq.
-  assert (A : forallb (fun k => N.lor (N.of_nat k) 49152 =? N.of_nat k + 49152) (seq 0 (N.to_nat 16384)) = true) by (vm_compute; reflexivity).
-  rewrite forallb_forall in A. specialize (A (N.to_nat q)). rewrite N2Nat.id in A.
-  apply N.eqb_eq, A, in_seq. lia.
+  intros Hq. pose proof (land_ptr_tag q Hq) as H.
+  rewrite <- (N.lxor_lor _ _ H). symmetry. apply N.add_nocarry_lxor. exact H.
 Qed.
 
 Lemma write_ptr_ok c tag q w w' : q < 16384 -> tag = 49152 ->
